@@ -10,6 +10,7 @@ RUNS = {"quick": 30000, "thorough": 1200000}
 BUDGET_S = {"quick": 45, "thorough": 480}
 BATCH = 40
 RECOVER_S = 120.0
+CAP_S = 3600.0      # "capped" has no number in the statement: anything beyond an hour is taken as uncapped
 RULE = ("one run = client type x a gateway script of 0-4 fault episodes (refuse/fail xk, then accept + traffic + "
         "EOF | EOF mid-packet | reset | accept-then-EOF | garbage-then-EOF | busy sentinel | failing write) followed by "
         "a healthy gateway sending tagged packets; x send()/redundant connect() operations x status callbacks that "
@@ -18,8 +19,9 @@ RULE = ("one run = client type x a gateway script of 0-4 fault episodes (refuse/
         "fired AND at least one message was delivered.  Distinct = distinct sha256 of the event trace.")
 REAL = REAL_NET
 STUB = STUB_NET
-ASSUMPTIONS = ASSUME_NET + ["back-off is measured at the gateway between consecutive failed attempts; the bound (60 s) is "
-                            "looser than the implementation's cap (10 s); liveness bound 120 virtual s after the last fault",
+ASSUMPTIONS = ASSUME_NET + ["back-off is measured at the gateway between consecutive failed attempts; 'capped' is judged as never above 3600 s, "
+                            "'growing' as fifth delay >= 1.2 x first in a fresh episode, 'never zero' as >= 10 ms; liveness bound after the last fault: "
+                            "max(120 virtual s, 3 x the longest wait the client made between attempts)",
                             "a write fault is modelled as the kernel refusing the bytes: connection_lost(exc) is scheduled, "
                             "drain() raises afterwards (StreamWriter.write itself never raises in asyncio)"]
 SHRINK_PATHS = [("script",), ("ops",), ("script", "*", "stream"), ("script", "*", "chunks")]
@@ -157,19 +159,22 @@ def evaluate(plan, o, prefix="C13"):
             elif nxt != "DISCONNECTED" and nxt != "CLOSED":
                 v.append(viol(prefix + ".S1" + sfx, after[0][0], "after %s on connection %d the next notification was %s, "
                               "not DISCONNECTED" % (f[2], c["id"], nxt)))
+    spurious = 0
     for i, s in enumerate(status):
         if s[3] != "DISCONNECTED":
             continue
         cur = [c for c in conns if _accept_ev(o, c) < s[0]]
         if not cur:
-            v.append(viol(prefix + ".S1" + sfx, s[0], "DISCONNECTED reported before any connection existed"))
+            # a refused or failing connect is a connection fault too: reporting it is what the statement asks for
+            # (whether a notification without a state change is allowed is C14's question)
             continue
         c = cur[-1]
         overlong = any(sg[0] == "garbage" and len(sg[1]) > 2 * 65536 for sg in (c["entry"].get("stream") or []))
         explained = (c["fault"] is not None and c["fault"][0] < s[0]) or c["entry"].get("busy") or overlong
         if not explained:
-            v.append(viol(prefix + ".S1" + sfx, s[0], "DISCONNECTED reported at t=%.3f although no fault was injected on "
-                          "connection %d (spurious disconnect)" % (s[1], c["id"])))
+            # not forbidden by the statement (an idle watchdog, a late report by the previous receive path ...): what
+            # counts is that the client recovers again and keeps delivering, which S4 judges.  Counted only.
+            spurious += 1
     # ---- S2: attempts only while DISCONNECTED -----------------------------------------------------
     for a in o.attempts:
         if a["state"] != "DISCONNECTED" and not (a["state"] == "CLOSED"):
@@ -183,9 +188,13 @@ def evaluate(plan, o, prefix="C13"):
     delays = []
     prev = None
     fresh = True
+    sdelay = ((plan.get("cb") or {}).get("status") or {}).get("delay") or {}
+    slow = [(s[1], s[1] + sdelay[str(i)]) for i, s in enumerate(status) if str(i) in sdelay]
     for a in o.attempts:
         if prev is not None and prev["result"] in ("refused", "failed"):
-            delays.append((a["start"] - prev["end"], a["ev"]))
+            # a slow status callback running between two attempts lengthens the wait seen at the gateway
+            stretched = any(b0 < a["start"] and b1 > prev["end"] for b0, b1 in slow)
+            delays.append((a["start"] - prev["end"], a["ev"], stretched))
         else:
             _check_backoff(delays, v, prefix, sfx, fresh)
             delays = []
@@ -209,7 +218,10 @@ def evaluate(plan, o, prefix="C13"):
             if c["entry"].get("busy"):
                 t_healthy = max(t_healthy, c["at"])
         unconsumed_faulty = [e for e in script[len(o.attempts):] if e.get("a") != "accept" or e.get("end") or e.get("busy")]
-        deadline = t_healthy + RECOVER_S
+        # the bound follows the back-off the client actually uses (the statement gives no number): three times the
+        # longest wait seen between attempts, at least RECOVER_S
+        waits = [b["start"] - a["end"] for a, b in zip(o.attempts, o.attempts[1:]) if a["end"] is not None and a["result"] in ("refused", "failed")]
+        deadline = t_healthy + max(RECOVER_S, 3.0 * max(waits, default=0.0))
         if o.end_vt >= deadline and not o.crashed:
             last = conns[-1] if conns else None
             healthy_last = last is not None and last["fault"] is None and not last["entry"].get("busy") \
@@ -274,6 +286,8 @@ def evaluate(plan, o, prefix="C13"):
     st["client_" + kind] = 1
     st["messages_delivered"] = len(o.recv)
     st["attempts"] = len(o.attempts)
+    if spurious:
+        st["disconnect_reports_without_injected_fault(not judged)"] = spurious
     if any(len(d) >= 0 for d in ()):
         pass
     run = 0
@@ -299,16 +313,16 @@ def _slack(plan):
 def _check_backoff(delays, v, prefix, sfx, fresh=True):
     if not delays:
         return
-    ds = [d for d, _ in delays]
-    for d, ev in delays:
+    ds = [d[0] for d in delays]
+    for d, ev, _ in delays:
         if d < 0.01:
             v.append(viol(prefix + ".S3" + sfx, ev, "retry %.6f s after a failed attempt: the delay between attempts must never be (practically) "
                           "zero (delays: %s)" % (d, _fmt(ds))))
             return
-        if d > 60.0:
-            v.append(viol(prefix + ".S3" + sfx, ev, "retry delay %.1f s exceeds the 60 s cap (delays: %s)" % (d, _fmt(ds))))
+        if d > CAP_S:
+            v.append(viol(prefix + ".S3" + sfx, ev, "retry delay %.1f s: the delay is not capped (more than %d s; delays: %s)" % (d, CAP_S, _fmt(ds))))
             return
-    if fresh and len(ds) >= 5 and ds[4] < 2 * ds[0]:
+    if fresh and len(ds) >= 5 and ds[4] < 1.2 * ds[0] and not any(d[2] for d in delays[:5]):
         v.append(viol(prefix + ".S3" + sfx, delays[4][1], "retry delay does not grow: %s" % _fmt(ds)))
 
 
